@@ -196,7 +196,8 @@ class Evaluator(Interp):
             m = self.w.find_method(ci.qname, attr)
             if m is not None:
                 if m.kind == "classmethod":
-                    return VFunc(m, bound=base)
+                    # the class the method is called on selects a class-specific contract, if there is one
+                    return VFunc(m, bound=base, cls_ctx=ci.qname)
                 return VFunc(m)
             if ci.is_model and attr in ("model_validate_json", "model_validate"):
                 return VBuiltin("ext:pydantic." + attr, bound=ci)
